@@ -4,3 +4,4 @@ import MoreExec.Props.C11
 #print axioms MoreExec.CoS.C10_race_linearises
 #print axioms MoreExec.CoS.C10_no_accept_after_flip
 #print axioms MoreExec.Shutdown.C11_source_facts
+#print axioms MoreExec.CoS.C10_source_facts
